@@ -542,7 +542,7 @@ pub fn run(ctx: &Arc<Ctx>) {
     refmodels::selftest::run(&["sm2"]).unwrap_or_else(|e| ctx.machinery_error(format!("reference self-test failed: {}", e)));
     let pr = sm2::params();
     let (p, n) = (pr.p.clone(), pr.n.clone());
-    ctx.set_rule("fields: operands = all 4-limb values with limbs in {0,1,2^32,2^63,2^64-1} below the modulus, values within 4 of it, 2^256-m, m/2, R, R^2, T/k + {-1,0,1} for k in {2,3} and T in {m,2m,3m,2^256,2^256+m,2^256+2m,2^257}, seeded; unary ops on all, binary ops on all x extreme (thorough: all x all); crafted Montgomery products landing on 0, 1, m-1. Raw u256/u512 helpers on all limb patterns. Group: [j]G for j in {1,2,3,5,n-1,n-2,seeded} x Z in {1,2,p-1,seeded,R^-1 (stored as plain 1),R} plus 3 encodings of infinity, all ordered pairs through point_add, triples of different points sharing y (and their negatives) in 3 representations through point_add, all through dbl/neg/affine/validity/SEC1; points with x = 0, with the smallest positive and the largest x (both roots, 6 representations, also reached as 2P + (-P)) through the same battery and small multiples, likewise points with y in {1, 2, R^-1, 2R^-1} (x by cubic root search) and their negatives; the point at infinity in 5 Jacobian encodings (t^2 : t^3 : 0) met with finite points and itself; off-curve triples; scalars {0,1,2,15,16,17,n-1, w, n-w, n+w for w<=300, 2^256-1, every v*16^i, every b*256^i, adjacent-byte sums, long runs of one bits, seeded} through g_mul / scalar_mul of 3 bases and of the point at infinity in 3 encodings; all 32x255 table entries; all sequences of <= 2 (thorough 3) scalar multiplications over related bases {B, -B, B re-represented, other point} x 2 scalars on one thread. Oracle: affine big-integer arithmetic.");
+    ctx.set_rule("fields: operands = all 4-limb values with limbs in {0,1,2^32,2^63,2^64-1} below the modulus, values within 4 of it, 2^256-m, m/2, R, R^2, T/k + {-1,0,1} for k in {2,3} and T in {m,2m,3m,2^256,2^256+m,2^256+2m,2^257}, seeded; unary ops on all, binary ops on all x extreme (thorough: all x all); crafted Montgomery products landing on 0, 1, m-1. Raw u256/u512 helpers on all limb patterns. Group: [j]G for j in {1,2,3,5,n-1,n-2,seeded} x Z in {1,2,p-1,seeded,R^-1 (stored as plain 1),R} plus 3 encodings of infinity, all ordered pairs through point_add, triples of different points sharing y (and their negatives) in 3 representations through point_add, all through dbl/neg/affine/validity/SEC1; points with x = 0, with the smallest positive and the largest x (both roots, 6 representations, also reached as 2P + (-P)) through the same battery and small multiples, likewise points with y in {1, 2, R^-1, 2R^-1} (x by cubic root search) and their negatives; the point at infinity in 5 Jacobian encodings (t^2 : t^3 : 0) met with finite points and itself; representations of G whose stored Y^4 / Y^2 sits next to a reduction threshold of 8x / 4x / 2x; off-curve triples; scalars {0,1,2,15,16,17,n-1, w, n-w, n+w for w<=300, 2^256-1, every v*16^i, every b*256^i, adjacent-byte sums, long runs of one bits, seeded} through g_mul / scalar_mul of 3 bases and of the point at infinity in 3 encodings; all 32x255 table entries; all sequences of <= 2 (thorough 3) scalar multiplications over related bases {B, -B, B re-represented, other point} x 2 scalars on one thread. Oracle: affine big-integer arithmetic.");
     let mut cases: Vec<Case> = Vec::new();
     let h = |x: &BigUint| hexbig(x);
     // ---- fields
@@ -624,6 +624,57 @@ pub fn run(ctx: &Arc<Ctx>) {
                 cases.push(Case::OffCurve { k: h(k1), l: h(l1), which });
             }
         }
+    }
+    // representations (l^2 x_G, l^3 y_G, l) of G chosen so that a power of the stored Y sits on a reduction threshold of a small
+    // multiple: m * stored(Y^e) next to T for (e, m) in {(4, 8), (2, 4), (2, 2)} and T in {k p, k 2^256, 2^256 + p}: a doubling
+    // that multiplies by 8 / 4 / 2 with a single conditional subtraction or a dropped carry goes wrong exactly there.
+    // Y = (v R^-1)^(1/e), l = (Y / y_G)^(1/3) (p = 2 mod 3: every element has one cube root)
+    {
+        let r256: BigUint = BigUint::one() << 256usize;
+        let rinv = r256.modpow(&(&p - 2u32), &p);
+        let (_, gy) = pr.g.clone().unwrap();
+        let gy_inv = gy.modpow(&(&p - 2u32), &p);
+        let cbrt = |a: &BigUint| a.modpow(&((&p * 2u32 - 1u32) / 3u32), &p);
+        let mut ts: Vec<BigUint> = Vec::new();
+        for k in 1u32..=8 {
+            ts.push(&p * k);
+            ts.push(&r256 * k);
+        }
+        ts.push(&r256 + &p);
+        let mut count = 0;
+        for (e, m) in [(4u32, 8u32), (2, 4), (2, 2)] {
+            for t in &ts {
+                let q = t / m;
+                let mut found = 0;
+                // nearest stored values on both sides of the threshold that have an e-th root
+                for delta in 0..40u32 {
+                    for v in [&q + delta, if q > BigUint::from(delta + 1) { &q - (delta + 1) } else { BigUint::zero() }] {
+                        if v >= p || v.is_zero() {
+                            continue;
+                        }
+                        let val = (&v * &rinv) % &p;
+                        let root = if e == 2 { sm2::sqrt_mod_p(&val) } else { sm2::sqrt_mod_p(&val).and_then(|r| sm2::sqrt_mod_p(&r).or_else(|| sm2::sqrt_mod_p(&(&p - &r)))) };
+                        let Some(yv) = root else { continue };
+                        if yv.modpow(&BigUint::from(e), &p) != val {
+                            continue;
+                        }
+                        let l = cbrt(&((&yv * &gy_inv) % &p));
+                        if l.is_zero() || (&l * &l * &l * &gy) % &p != yv {
+                            continue;
+                        }
+                        cases.push(Case::Unary { k: h(&BigUint::one()), l: h(&l) });
+                        cases.push(Case::Add { k1: h(&BigUint::one()), l1: h(&l), k2: h(&BigUint::one()), l2: h(&l) });
+                        cases.push(Case::Add { k1: h(&BigUint::one()), l1: h(&l), k2: h(&BigUint::from(2u32)), l2: h(&BigUint::one()) });
+                        count += 1;
+                        found += 1;
+                    }
+                    if found >= 2 {
+                        break;
+                    }
+                }
+            }
+        }
+        ctx.cov("representations_with_a_power_of_Y_on_a_reduction_threshold", json!(count));
     }
     // different points sharing y: for P = (x1, y) the other roots of x^3 + a x + (b - y^2) are those of
     // x^2 + x1 x + (x1^2 + a); with Q, T the two further points, P + Q + T = O. Every ordered pair of {+-P, +-Q, +-T} in
